@@ -417,6 +417,7 @@ extern "C" int LLVMFuzzerTestOneInput(const uint8_t *data, size_t size) {
 #else
 int main(int argc, char **argv) {
   p_libsys_init();
+  vl::cpu_guard(60); // non-termination oracle: user CPU time per case, see vlib.h
   return vl::harness_main(argc, argv, run_generated, run_replay);
 }
 #endif
